@@ -175,6 +175,7 @@ class Stepper:
         self.n_ops = 0
         self.flags = set()
         self.overridden_since_clear = False
+        self.shared_fields = {}
 
     # ---------------- strategies
     def op_strategy(self):
@@ -189,11 +190,13 @@ class Stepper:
             'delay': st.sampled_from([False, False, False, True]),
             'parent': st.sampled_from([None, None, 1, 'g', 'group']),
             'label': st.sampled_from([None, 'lab_a', 'lab_b']),
-        })
+        }, optional={'shared': st.just(True)})
+        say = st.fixed_dictionaries({'op': st.just('say'), 'fn': st.sampled_from(['log', 'debug']),
+                                     'items': st.lists(st.sampled_from(['hello', 'x = 5', '', '{braces}', 'two words']), min_size=1, max_size=2)})
         override = st.sampled_from(OVERRIDE_FIELDS).flatmap(lambda f: st.fixed_dictionaries({
             'op': st.just('override'), 'cls': st.sampled_from(POOL), 'field': st.just(f),
             'value': st.sampled_from(OVERRIDE_VALUES[f])}, optional={'other_report': st.just(True)}))
-        options = [create, create, create, override, override,
+        options = [create, create, create, override, override, say,
                    st.just({'op': 'clear'}), st.just({'op': 'contextualize'}),
                    st.fixed_dictionaries({'op': st.just('set_formatter'), 'fmt': st.sampled_from(['marker', 'html', 'default'])}),
                    st.just({'op': 'group'})]
@@ -247,6 +250,8 @@ class Stepper:
                 self.do_create(op, viol)
             elif kind == 'handle':
                 self.do_handle(op, viol)
+            elif kind == 'say':
+                self.do_say(op, viol)
             elif kind == 'override':
                 cls = self.s['classes'][op['cls']]
                 if op.get('other_report'):
@@ -313,7 +318,13 @@ class Stepper:
             kw['message'] = 'explicit message'
         elif msg_mode == 'template':
             kw['message_template'] = op['template']
-        if op['as_kwargs']:
+        if op.get('shared'):
+            # an instructor script that reuses one (empty) dict object for the `fields` argument of many calls; what
+            # differs between the calls is passed as keywords
+            kw['fields'] = self.shared_fields
+            kw.update(fields)
+            self.flags.add('shared-fields-dict')
+        elif op['as_kwargs']:
             kw.update(fields)
         elif fields:
             kw['fields'] = dict(fields)
@@ -343,7 +354,7 @@ class Stepper:
 
     def given_fields(self, op, kw):
         """What the caller supplied (copied before the call) plus the class's constant fields as they were defined."""
-        given = dict(kw.get('fields') or {})
+        given = {} if op.get('shared') else dict(kw.get('fields') or {})      # the shared dict is empty as far as the caller is concerned
         for key in ('k', 'n'):
             if key in kw:
                 given[key] = kw[key]
@@ -437,6 +448,28 @@ class Stepper:
                              dict(target.fields), type(self.report.format).__name__)))
         if target._status != ('active' if triggered else 'inactive'):
             viol.append(V('C20|status', 'status %r for outcome %r' % (target._status, outcome)))
+
+    def do_say(self, op, viol):
+        """log(...) / debug(...): muted feedback recorded as triggered, delivering what was said as its message."""
+        from pedal.core import commands as C
+        before = list(self.report.feedback) + list(self.report.ignored_feedback)
+        getattr(C, op['fn'])(*op['items'])
+        new_f = [f for f in self.report.feedback if not any(f is b for b in before)]
+        new_i = [f for f in self.report.ignored_feedback if not any(f is b for b in before)]
+        for o in new_f:
+            self.live.append((o, True))
+        for o in new_i:
+            self.live.append((o, False))
+        self.flags.add('say')
+        # log() joins its items into one message, debug() reports each item by itself
+        want = [' '.join(op['items'])] if op['fn'] == 'log' else list(op['items'])
+        if len(new_f) != len(want) or new_i:
+            viol.append(V('C20|say|%s|count' % op['fn'], '%s(*%r) recorded %d triggered and %d untriggered feedback'
+                          % (op['fn'], op['items'], len(new_f), len(new_i))))
+            return
+        got = [o.message for o in new_f]
+        if got != want:
+            viol.append(V('C20|say|%s|message' % op['fn'], '%s(*%r) delivered the messages %r' % (op['fn'], op['items'], got)))
 
     def do_handle(self, op, viol):
         obj = self.delayed.pop(op['index'] % len(self.delayed))
